@@ -1,6 +1,11 @@
 #!/usr/bin/env python3
 """write seeded/INDEX.md and benign/INDEX.md from the meta.json files (which checks catch which change)"""
-import json, os
+import json
+
+
+def _s(x):
+    return ', '.join(map(str, x)) if isinstance(x, list) else str(x or '')
+, os
 V = os.path.dirname(os.path.dirname(os.path.abspath(__file__)))
 rows = []
 for d in sorted(os.listdir(os.path.join(V, 'seeded'))):
@@ -12,7 +17,7 @@ for d in sorted(os.listdir(os.path.join(V, 'seeded'))):
     keys = det.get('new_violation_keys') or {}
     rules = sorted({k.split(':')[0] for v in keys.values() for k in v})
     first = det.get('first_run_before_any_rule_change')
-    rows.append((d, m.get('breaks_property'), (m.get('summary') or '').replace('|', '/').replace('\n', ' ')[:150], 'yes' if det.get('detected') else '**no**',
+    rows.append((d, m.get('breaks_property'), _s(m.get('summary')).replace('|', '/').replace('\n', ' ')[:150], 'yes' if det.get('detected') else '**no**',
                  ', '.join(rules)[:160], '' if first is None else ('yes' if first.get('detected') else 'no')))
 with open(os.path.join(V, 'seeded', 'INDEX.md'), 'w') as f:
     f.write('# Seeded breaking changes (independent sub-agents) and the checks that catch them\n\n')
@@ -28,7 +33,7 @@ for d in sorted(os.listdir(os.path.join(V, 'benign'))):
     m = json.load(open(mp))
     keys = m.get('new_violation_keys') or {}
     first = m.get('first_run_before_any_rule_change')
-    rows.append((d, m.get('anchored_in_property'), (m.get('kind') or '').replace('|', '/')[:60], (m.get('summary') or '').replace('|', '/').replace('\n', ' ')[:130],
+    rows.append((d, m.get('anchored_in_property'), _s(m.get('kind')).replace('|', '/')[:60], _s(m.get('summary')).replace('|', '/').replace('\n', ' ')[:130],
                  'silent' if m.get('silent') else '**ALARM** ' + ', '.join(sorted({k.split(':')[0] for v in keys.values() for k in v}))[:100], '' if first is None else ('silent' if first.get('silent') else 'alarm')))
 with open(os.path.join(V, 'benign', 'INDEX.md'), 'w') as f:
     f.write('# Behaviour-preserving refactors (independent sub-agents): every check must stay silent\n\n')
